@@ -21,7 +21,8 @@ META = dict(
         quick='N=3 panel P1: all 7^3 eligibility matrices x both searches; '
         'N=4 panels P2/P7 and N=3 P4: curated + seeded matrices with '
         'n_geos_max, treatment/control size ranges, share range or budget '
-        'range symbolic (one or two at a time)',
+        'range symbolic (one or two at a time); histories: data object '
+        'used before by / shared with a second search object',
         thorough='as quick, plus all 7^3 matrices x {n_geos_max, share, '
         'budget} symbolic on P1 and 7^4 matrices on P2 (both searches), 5-geo '
         'panel P10 with seeded matrices'),
@@ -91,6 +92,20 @@ def jobs(tier, seed):
     out.append(dict(func='job', name=name, kwargs=dict(
         name=name, panel='P2', method=m, sym=['tsize'],
         elig={'0': 'ct', '2': 'ctx', '3': 'cx'})))
+  # shared data object: another search object is used in between
+  for m in methods:
+    for h in ['prior', 'interleave']:
+      for i, el in enumerate(CURATED4[:5]):
+        name = 'hist-%s-P2-%s-%d' % (h, m, i)
+        out.append(dict(func='job', name=name, kwargs=dict(
+            name=name, panel='P2', method=m, sym=['ngm'], elig=el,
+            history=h)))
+      if tier == 'thorough':
+        for r0 in RT:
+          name = 'hist-%s-P1-%s-sym-%s' % (h, m, r0)
+          out.append(dict(func='job', name=name, kwargs=dict(
+              name=name, panel='P1', method=m, sym=['ngm'], elig='sym',
+              elig_fix={'0': r0}, history=h, max_s=2500)))
   if tier == 'thorough':
     for sym in (['ngm'], ['share'], ['budget']):
       out += _split_sym_jobs('P1', methods, sym, tier, 'all343',
